@@ -180,6 +180,10 @@ Proof.
   induction l as [|x l IH]; cbn; [reflexivity|exact IH].
 Qed.
 
+(* presentation: a leading singleton task dimension is squeezed (class (1,) vs functional 0-dim) *)
+Definition squeeze1 (nt : nat) (l : list val) : val :=
+  match nt, l with 1%nat, [x] => x | _, _ => VL l end.
+
 (* ---- CTR: states click_total, weight_total (float64, shape (num_tasks,)) ---- *)
 Definition ctr_batch := (list (list Qc) * rk_w)%type.
 Definition ctr_valid (nt : nat) (b : ctr_batch) : bool := rows_ok nt (fst b) && w_ok (fst b) (snd b).
@@ -201,14 +205,12 @@ Proof.
 Defined.
 Definition ctr_metric := add_metric ctr_spec.
 Definition dec_ctr_batch (_ : nat) (v : val) : option ctr_batch := as_pair dec_rows dec_w v.
-Definition ctr_codec : Codec ctr_metric := add_codec ctr_spec as_nat dec_ctr_batch (fun _ => vlistQ).
+Definition ctr_codec : Codec ctr_metric := add_codec ctr_spec as_nat dec_ctr_batch (fun nt l => squeeze1 nt (map vq l)).
 (* @model rk_ctr run_ctr *)
 Definition run_ctr := run_pool ctr_metric ctr_codec.
 (* functional: float32 eps; 0-dim result when num_tasks = 1 *)
 Definition ctr_fn (nt : nat) (b : ctr_batch) : list Qc :=
   map2 (ctr_ratio tiny32) (mapi (wdot (snd b)) (fst b)) (mapi (wtotal (snd b)) (fst b)).
-Definition squeeze1 (nt : nat) (l : list val) : val :=
-  match nt, l with 1%nat, [x] => x | _, _ => VL l end.
 (* @model rk_ctr_fn run_ctr_fn *)
 Definition run_ctr_fn (v : val) : val :=
   match v with
@@ -227,15 +229,17 @@ Definition wc_valid (nt : nat) (b : wc_batch) : bool :=
   rows_ok nt (wc_in b) && shape_eq (wc_tg b) (wc_in b) && w_ok (wc_in b) (snd b).
 Definition wc_beta (nt : nat) (b : wc_batch) : nd :=
   Arr [nvec (mapi (wdot (snd b)) (wc_in b)); nvec (mapi (wdot (snd b)) (wc_tg b))].
-(* compute(): torch.empty(0) if any weighted_target_sum == 0 *)
-Definition wc_gamma (nt : nat) (s : nd) : list Qc :=
+(* compute() (after fixes 7c618c5 + ae13937): torch.empty(0) only when nothing was accumulated (all
+   weighted_target_sum == 0 AND all weighted_input_sum == 0); otherwise the IEEE quotient per task
+   (a task with zero target sum yields nan / +-inf, as in the functional) *)
+Definition wc_gamma (nt : nat) (s : nd) : list xq :=
   let i := nlist (nget 0 s) in let t := nlist (nget 1 s) in
-  if existsb (fun x => qeq x 0) t then [] else map2 Qcdiv i t.
+  if forallb (fun x => qeq x 0) t && forallb (fun x => qeq x 0) i then [] else map2 qdivx i t.
 Lemma shape_eq_length a b : shape_eq a b = true -> List.length a = List.length b.
 Proof. unfold shape_eq. intros H. apply andb_prop in H as [H _]. apply Nat.eqb_eq, H. Qed.
 Definition wc_spec : AddSpec.
 Proof.
-  refine (Build_AddSpec nat wc_batch (list Qc) (fun nt => Arr [nzeros nt; nzeros nt]) wc_valid wc_beta wc_gamma _ _).
+  refine (Build_AddSpec nat wc_batch (list xq) (fun nt => Arr [nzeros nt; nzeros nt]) wc_valid wc_beta wc_gamma _ _).
   - intros c. cbn [is_zero forallb]. rewrite is_zero_nzeros. reflexivity.
   - intros c b Hb. unfold wc_valid, rows_ok in Hb.
     apply andb_prop in Hb as [Hb _]. apply andb_prop in Hb as [Hb Hs]. apply andb_prop in Hb as [Hl _].
@@ -249,7 +253,7 @@ Definition dec_wc_batch (_ : nat) (v : val) : option wc_batch :=
   | VL [i; t; w] => match dec_rows i, dec_rows t, dec_w w with
                     | Some i, Some t, Some w => Some (i, t, w) | _, _, _ => None end
   | _ => None end.
-Definition wc_codec : Codec wc_metric := add_codec wc_spec as_nat dec_wc_batch (fun _ => vlistQ).
+Definition wc_codec : Codec wc_metric := add_codec wc_spec as_nat dec_wc_batch (fun nt l => squeeze1 nt (map xq_val l)).
 (* @model rk_wcal run_wcal *)
 Definition run_wcal := run_pool wc_metric wc_codec.
 (* functional: plain IEEE division, no empty-result convention *)
